@@ -206,8 +206,7 @@ def replay(ctx, doc):
     import spowtd.regrid as rg
     inp = doc["input"]
     if inp.get("function") != "regrid.regrid":
-        print("replay: rerun the check with VERIF_SEED=%s" % doc.get("seed"))
-        return True
+        return None   # re-run the stream with the recorded seed (check.py does it)
     got = [(int(k), float(x)) for k, x in rg.regrid(np.array(inp["x"]), np.array(inp["y"]), inp["step"])]
     exp = [k for ks in expected_levels(inp["step"], inp["y"]) for k in ks]
     print("impl levels:", [k for k, _ in got], "expected:", exp)
